@@ -193,3 +193,43 @@ Proof.
     + rewrite Hhead. rewrite (sget_overflow s (length s)) by lia. reflexivity.
     + rewrite Hother by exact Hp. reflexivity.
 Qed.
+
+(* ---- delete_function: exact effect on the store -------------------------------------------------------------- *)
+Lemma filter_idem {A} (p : A -> bool) l : filter p (filter p l) = filter p l.
+Proof.
+  induction l as [|x r IH]; [reflexivity|]. cbn [filter]. destruct (p x) eqn:E; [|exact IH].
+  cbn [filter]. rewrite E, IH. reflexivity.
+Qed.
+
+Lemma plain_delete_function_idem st f :
+  plain_delete_function (plain_delete_function st f) f = plain_delete_function st f.
+Proof. unfold plain_delete_function. cbn [pdata pfuncs pexcl]. rewrite !filter_idem. reflexivity. Qed.
+
+Lemma sget_supd_gen s p g q : g empty_pstate = empty_pstate ->
+  sget (supd s p g) q = if Nat.eqb q p then g (sget s q) else sget s q.
+Proof.
+  intro Hg. destruct (Nat.eqb_spec q p) as [->|Hn].
+  - destruct (Nat.lt_ge_cases p (length s)) as [Hl|Hl].
+    + apply sget_supd_same. exact Hl.
+    + rewrite (sget_overflow s p) by exact Hl. rewrite Hg. apply sget_overflow. rewrite supd_length. exact Hl.
+  - apply sget_supd_other. auto.
+Qed.
+
+Lemma pick_twice {A} (b1 b2 : bool) (x : A) (g : A -> A) : (forall y, g (g y) = g y) ->
+  (if b2 then g (if b1 then g x else x) else (if b1 then g x else x)) = if b1 || b2 then g x else x.
+Proof. intro H. destruct b1, b2; cbn [orb]; try reflexivity. apply H. Qed.
+
+Lemma delete_function_sget f c : forall s q,
+  sget (delete_function s c f) q
+  = if existsb (Nat.eqb q) (sources c) then plain_delete_function (sget s q) f else sget s q.
+Proof.
+  induction c as [p par _|ms par IH _|l par IH _] using ctx_ind'.
+  - intros s q. cbn [delete_function sources existsb]. rewrite orb_false_r. apply sget_supd_gen. reflexivity.
+  - rewrite sources_multi. cbn [delete_function].
+    induction IH as [|m r Hm _ IHr]; intros s q; cbn [flat_map existsb]; [reflexivity|].
+    rewrite IHr, !Hm, existsb_app.
+    refine (pick_twice (existsb (Nat.eqb q) (sources m)) (existsb (Nat.eqb q) (flat_map sources r))
+                       (sget s q) (fun x => plain_delete_function x f) _).
+    intro x. apply plain_delete_function_idem.
+  - intros s q. cbn [delete_function sources]. apply IH.
+Qed.
